@@ -228,6 +228,30 @@ fn op_format(src: &str) -> String {
     hex(&crate::format::format(src, &verif_path()))
 }
 
+/// Edit lists and per-phase texts of the formatter (see
+/// `format::verif_format_trace`).
+fn op_fmt_trace(src: &str) -> String {
+    let t = crate::format::verif_format_trace(src, &verif_path());
+    let mut out = String::new();
+    for (name, text) in &t.texts {
+        out.push_str(&format!("(text {} s:{}) ", name, hex(text)));
+    }
+    out.push_str("(line_edits");
+    for (l, n) in &t.line_edits {
+        out.push_str(&format!(" (le {l} {n})"));
+    }
+    out.push_str(") (span_edits");
+    for (s, e, r) in &t.span_edits {
+        out.push_str(&format!(" (se {s} {e} s:{})", hex(r)));
+    }
+    out.push_str(") (toplevel");
+    for l in &t.toplevel_start_lines {
+        out.push_str(&format!(" {l}"));
+    }
+    out.push(')');
+    out
+}
+
 // ---- S-expressions for types -------------------------------------------
 
 #[derive(Debug, Clone)]
@@ -482,6 +506,7 @@ fn handle(line: &str) -> Result<String, String> {
             let (n_diags, s) = crate::parser::verif_unescape_string(&unhex(rest)?);
             Ok(format!("(unesc {} {})", hex(&s), n_diags))
         }
+        "fmt_trace" => Ok(op_fmt_trace(&unhex(rest)?)),
         "subtype" | "subtype_ne" | "unify" | "unify_all" | "tydisplay" => op_types(op, rest),
         "lsp_o2p" | "lsp_lc2o" | "lsp_whole" => crate::lsp::verif_lsp_op(op, rest),
         _ => Err(format!("unknown op {op}")),
